@@ -54,7 +54,7 @@ func reps(class string, variant int) dest {
 	mixed := func(s string) string {
 		b := []byte(s)
 		for i := range b {
-			if i%2 == variant%2 && b[i] >= 'a' && b[i] <= 'z' {
+			if i%2 == (variant/8)%2 && b[i] >= 'a' && b[i] <= 'z' {
 				b[i] -= 32
 			}
 		}
@@ -221,7 +221,11 @@ func TestDecisions(t *testing.T) {
 		if err := json.Unmarshal(line, &r); err != nil {
 			t.Fatalf("bad row: %v", err)
 		}
-		for v := 0; v < variants; v++ {
+		nv := variants
+		if strings.HasPrefix(r.C, "localName") && nv < 16 {
+			nv = 16 // every well-known local name (eight of them, IPv4- and IPv6-flavoured) in both letter patterns
+		}
+		for v := 0; v < nv; v++ {
 			d := reps(r.C, v)
 			srv, err := socks5.New(&socks5.Config{Users: users(), Egress: egressConfig(r.Rules, d)})
 			if err != nil {
